@@ -521,7 +521,8 @@ def fmtStored (e : Entry) (src : DType) (asked : Option DType) (order : Nat) : O
     `mat` | `dtype <src> <asked> <order>` |
     `lookup <src> <asked> <order> <mode> <tshape> <grid> <cval>` |
     `field <src> <asked> <mode> <tshape> <sshape> <L> <cval>` -/
-def pTask (n k : Nat) (e : Entry) : P (Aff n k → String) := do
+def pTaskG (n k : Nat) (e : Entry) (gmap : Grid n → Grid n) (tmap : List Nat → List Nat) :
+    P (Aff n k → String) := do
   let t ← pTok
   match t with
   | "mat" => pure (fun M => fmtAff M)
@@ -531,7 +532,9 @@ def pTask (n k : Nat) (e : Entry) : P (Aff n k → String) := do
   | "lookup" => do
       let src ← pDType; let asked ← pAsked; let order ← pNat; let m ← pMode
       let tsh ← pMany pNat k
+      let tsh := tmap tsh
       let (g, ok) ← pGridTyped n src
+      let g := gmap g
       let cval ← pRat
       pure (fun M =>
         if !ok then "error:notRepresentable" else
@@ -542,7 +545,9 @@ def pTask (n k : Nat) (e : Entry) : P (Aff n k → String) := do
   | "lin1" => do
       let src ← pDType; let asked ← pAsked; let m ← pMode
       let tsh ← pMany pNat k
+      let tsh := tmap tsh
       let (g, ok) ← pGridTyped n src
+      let g := gmap g
       let cval ← pRat
       pure (fun M =>
         if !ok then "error:notRepresentable" else
@@ -553,7 +558,9 @@ def pTask (n k : Nat) (e : Entry) : P (Aff n k → String) := do
   | "near0" => do
       let src ← pDType; let asked ← pAsked; let m ← pMode
       let tsh ← pMany pNat k
+      let tsh := tmap tsh
       let (g, ok) ← pGridTyped n src
+      let g := gmap g
       let cval ← pRat
       pure (fun M =>
         if !ok then "error:notRepresentable" else
@@ -564,17 +571,21 @@ def pTask (n k : Nat) (e : Entry) : P (Aff n k → String) := do
   | "field" => do
       let src ← pDType; let asked ← pAsked; let m ← pMode
       let tsh ← pMany pNat k
+      let tsh := tmap tsh
       let ssh ← pMany pNat n
       let L ← pAff 1 n
       let cval ← pRat
       let sha := ssh.toArray
-      let g : Grid n := ⟨fun i => sha.getD i 0, fun _ => 0⟩
+      let g : Grid n := gmap ⟨fun i => sha.getD i 0, fun _ => 0⟩
       pure (fun M =>
         let M := M.freeze
         (outDType e src asked 1).name ++ " " ++
         " ".intercalate ((allIdx tsh).map (fun v =>
           fmtStored e src asked 1 (fieldExpectedMode g L cval m M (idxFn k v)))))
   | _ => failure
+
+/-- the tasks on the arrays as given (no re-ordering of the source array / target shape) -/
+def pTask (n k : Nat) (e : Entry) : P (Aff n k → String) := pTaskG n k e id id
 
 def fmtExc : Except String String → String
   | .ok s => s
